@@ -267,6 +267,14 @@ pub struct InstructionGenerator {
     pub subprogram_info_repository: SubprogramInfoRepository,
     pub current_subprogram: ScopeName,
     pub linter_names: Names,
+    /// How many FOR loop bodies enclose the statement being generated.
+    /// Every FOR loop body runs in its own register frame.
+    pub for_depth: usize,
+    /// How many SELECT CASE blocks enclose the statement being generated.
+    /// Every SELECT CASE keeps its expression on the value stack.
+    pub select_depth: usize,
+    /// The FOR and SELECT CASE depth of every label of the current module/function/sub.
+    pub label_depths: std::collections::HashMap<CaseInsensitiveString, (usize, usize)>,
 }
 
 impl InstructionGenerator {
@@ -277,6 +285,77 @@ impl InstructionGenerator {
             subprogram_info_repository,
             current_subprogram: ScopeName::Global,
             linter_names,
+            for_depth: 0,
+            select_depth: 0,
+            label_depths: std::collections::HashMap::new(),
+        }
+    }
+
+    /// Collects the labels of the given statements, together with the number
+    /// of FOR loops and SELECT CASE blocks that enclose them.
+    fn collect_label_depths(
+        &mut self,
+        statements: &Statements,
+        for_depth: usize,
+        select_depth: usize,
+    ) {
+        for Positioned { element, .. } in statements {
+            match element {
+                Statement::Label(name) => {
+                    self.label_depths
+                        .insert(name.clone(), (for_depth, select_depth));
+                }
+                Statement::IfBlock(i) => {
+                    self.collect_label_depths(&i.if_block.statements, for_depth, select_depth);
+                    for b in &i.else_if_blocks {
+                        self.collect_label_depths(&b.statements, for_depth, select_depth);
+                    }
+                    if let Some(b) = &i.else_block {
+                        self.collect_label_depths(b, for_depth, select_depth);
+                    }
+                }
+                Statement::SelectCase(s) => {
+                    for b in &s.case_blocks {
+                        self.collect_label_depths(b.statements(), for_depth, select_depth + 1);
+                    }
+                    if let Some(b) = &s.else_block {
+                        self.collect_label_depths(b, for_depth, select_depth + 1);
+                    }
+                }
+                Statement::ForLoop(f) => {
+                    self.collect_label_depths(&f.statements, for_depth + 1, select_depth);
+                }
+                Statement::While(w) => {
+                    self.collect_label_depths(&w.statements, for_depth, select_depth);
+                }
+                Statement::DoLoop(d) => {
+                    self.collect_label_depths(&d.statements, for_depth, select_depth);
+                }
+                _ => {}
+            }
+        }
+    }
+
+    /// Before jumping from the current statement to a place that is enclosed by
+    /// the given number of FOR loops and SELECT CASE blocks, drops (or adds) the
+    /// register frames and the SELECT CASE expressions that make the difference.
+    pub fn adjust_stacks_for_jump(
+        &mut self,
+        target_for_depth: usize,
+        target_select_depth: usize,
+        pos: Position,
+    ) {
+        for _ in target_select_depth..self.select_depth {
+            self.push(Instruction::PopValueStackIntoA, pos);
+        }
+        for _ in self.select_depth..target_select_depth {
+            self.push(Instruction::PushAToValueStack, pos);
+        }
+        for _ in target_for_depth..self.for_depth {
+            self.push(Instruction::PopRegisters, pos);
+        }
+        for _ in self.for_depth..target_for_depth {
+            self.push(Instruction::PushRegisters, pos);
         }
     }
 
@@ -345,6 +424,8 @@ impl InstructionGenerator {
     }
 
     fn visit_global_statements(&mut self, statements: Statements) {
+        self.label_depths.clear();
+        self.collect_label_depths(&statements, 0, 0);
         self.visit(statements);
 
         // add HALT instruction at end of program to separate from the functions and subs
@@ -416,6 +497,8 @@ impl InstructionGenerator {
     }
 
     fn subprogram_body(&mut self, block: Statements, pos: Position) {
+        self.label_depths.clear();
+        self.collect_label_depths(&block, 0, 0);
         self.visit(block);
         // to be able to RESUME NEXT if an error occurs on the last statement
         self.mark_statement_address();
